@@ -5,6 +5,7 @@ def harness_args(run, tier, n, cases):
         ["-pass", "seq", "-seed", run.seed, "-n", nseq, "-tier", tier, "-out", base + ".seq.cases"],
         ["-pass", "hist", "-seed", run.seed, "-n", n, "-tier", tier, "-out", base + ".hist.cases"],
         ["-pass", "block", "-seed", run.seed, "-n", 1, "-tier", tier, "-out", base + ".block.cases"],
+        ["-pass", "acceptrace", "-seed", run.seed, "-n", 1, "-tier", tier, "-out", base + ".acceptrace.cases"],
         ["-pass", "armpark", "-seed", run.seed, "-n", 1, "-tier", tier, "-out", base + ".armpark.cases"],
         # last, in its own process: a Close that fails to abort a dial leaves a loop alive for 30 s
         ["-pass", "blackhole", "-seed", run.seed, "-n", 1, "-tier", tier, "-out", base + ".blackhole.cases"],
